@@ -947,6 +947,202 @@ fn bld_case(init: usize, calls: &[Call], rep: &mut Report) -> Option<String> {
     }
 }
 
+
+// ---------------------------------------------------------------------------------------------
+// C13, states with many labels: state 0 gets 6 to 20 labels over arbitrary intervals (presented in several orders, with
+// duplicated, nested and bridging same-target labels, with one label missing, with one conflicting label), states 1 and
+// 2 are plain. The model works on the elementary segments between all end points.
+
+#[derive(Clone, Debug)]
+struct ManySpec {
+    /// (lo, hi, target) in the order of the add_transition calls, all on state 0
+    labels: Vec<(u32, u32, usize)>,
+    dflt: Option<usize>,
+    dflt_first: bool,
+}
+
+fn many_json(sp: &ManySpec) -> Value {
+    json!({"engine": "bld", "__engine": "bld", "many": sp.labels.iter().map(|l| json!([l.0, l.1, l.2])).collect::<Vec<_>>(), "default": sp.dflt, "default_first": sp.dflt_first})
+}
+fn many_from_json(v: &Value) -> ManySpec {
+    let labels = v["many"].as_array().map(|a| a.iter().map(|l| (l[0].as_u64().unwrap_or(0) as u32, l[1].as_u64().unwrap_or(0) as u32, l[2].as_u64().unwrap_or(0) as usize)).collect()).unwrap_or_default();
+    ManySpec { labels, dflt: v["default"].as_u64().map(|d| d as usize), dflt_first: v["default_first"].as_bool().unwrap_or(false) }
+}
+
+fn many_case(sp: &ManySpec, rep: &mut Report) -> Option<String> {
+    // ---- model: elementary segments ----
+    let mut cuts: Vec<u64> = vec![0, MAX_CHAR as u64 + 1];
+    for &(l, h, _) in &sp.labels {
+        cuts.push(l as u64);
+        cuts.push(h as u64 + 1);
+    }
+    cuts.sort_unstable();
+    cuts.dedup();
+    let (mut conflict, mut uncovered, mut all_cov) = (false, false, true);
+    let mut segs: Vec<(u32, usize)> = vec![]; // (representative character, specified target)
+    for w in cuts.windows(2) {
+        let c = w[0] as u32;
+        let ts: Vec<usize> = sp.labels.iter().filter(|l| l.0 <= c && c <= l.1).map(|l| l.2).collect();
+        if ts.iter().any(|&t| t != ts[0]) {
+            conflict = true;
+        }
+        match (ts.first(), sp.dflt) {
+            (Some(&t), _) => segs.push((c, t)),
+            (None, Some(d)) => {
+                all_cov = false;
+                segs.push((c, d));
+            }
+            (None, None) => {
+                all_cov = false;
+                uncovered = true;
+            }
+        }
+        // the last character of the segment as well
+        if let Some(&(_, t)) = segs.last() {
+            if w[1] - 1 > w[0] && !uncovered {
+                segs.push(((w[1] - 1) as u32, t));
+            }
+        }
+    }
+    let needless = all_cov && sp.dflt.is_some();
+    let must_err = conflict || uncovered;
+    let must_ok = !conflict && !uncovered && !needless;
+    // ---- real code ----
+    publish_case(|| many_json(sp));
+    let res = guarded(|| {
+        let mut b = AutomatonBuilder::new(&0usize);
+        if sp.dflt_first {
+            if let Some(d) = sp.dflt {
+                b.set_default_successor(&0, &d);
+            }
+        }
+        for &(l, h, t) in &sp.labels {
+            b.add_transition(&0, &CharSet::range(l, h), &t);
+        }
+        if !sp.dflt_first {
+            if let Some(d) = sp.dflt {
+                b.set_default_successor(&0, &d);
+            }
+        }
+        // states 1 and 2: plain and different from each other
+        b.add_transition(&1, &CharSet::singleton(A), &2);
+        b.set_default_successor(&1, &1);
+        b.set_default_successor(&2, &0);
+        b.mark_final(&2);
+        b.build()
+    });
+    unpublish_case();
+    let what = || format!("state 0 with {} labels {:?}{} default {:?}{}", sp.labels.len(), &sp.labels[..sp.labels.len().min(6)], if sp.labels.len() > 6 { ".." } else { "" }, sp.dflt, if sp.dflt_first { " (declared first)" } else { "" });
+    let res = match res {
+        Err(e) => return Some(format!("{}: build() {}", what(), e)),
+        Ok(r) => r,
+    };
+    rep.hist("many_label_outcomes", &format!("conflict={} uncovered={} needless_default={} -> {}", conflict as u8, uncovered as u8, needless as u8, if res.is_ok() { "Ok" } else { "Err" }));
+    match res {
+        Err(e) => must_ok.then(|| format!("{}: rejected with {:?} although the specification is complete, conflict-free and declares a default only where characters are uncovered", what(), e)),
+        Ok(a) => {
+            if must_err {
+                return Some(format!("{}: build() returned an automaton although {}", what(), if conflict { "two labels assign different successors to one character" } else { "some characters have no successor and there is no default" }));
+            }
+            if a.num_states() != 3 || a.num_final_states() != 1 {
+                return Some(format!("{}: {} states ({} final), 3 states (1 final) were specified", what(), a.num_states(), a.num_final_states()));
+            }
+            // states were first mentioned in the order 0, targets.., so search the renaming
+            let fin = [false, false, true];
+            let chars: Vec<u32> = segs.iter().map(|s| s.0).chain([A, A + 1, 0, MAX_CHAR]).collect();
+            let spec = |q: usize, c: u32| -> usize {
+                match q {
+                    0 => {
+                        let ts: Vec<usize> = sp.labels.iter().filter(|l| l.0 <= c && c <= l.1).map(|l| l.2).collect();
+                        ts.first().copied().or(sp.dflt).unwrap_or(0)
+                    }
+                    1 => {
+                        if c == A {
+                            2
+                        } else {
+                            1
+                        }
+                    }
+                    _ => 0,
+                }
+            };
+            rep.add("states", 3);
+            rep.add("transitions", 3 * chars.len() as u64);
+            rep.add("impl_traces", 3 * chars.len() as u64);
+            match guarded(|| find_renaming(&a, 3, &spec, &chars, &fin)) {
+                Err(e) => Some(format!("{}: stepping the built automaton {}", what(), e)),
+                Ok(None) => Some(format!("{}: the automaton returned is not the one specified (some successor of state 0 differs)", what())),
+                Ok(Some(_)) => None,
+            }
+        }
+    }
+}
+
+/// the specifications with many labels: k adjacent intervals of width 3 (the last one up to MAX_CHAR) whose targets
+/// cycle through 0,1,2 (or repeat in runs), in four presentation orders, each as given / with one label removed / with
+/// a same-target duplicate or bridge added / with a conflicting label added, with and without default
+fn many_specs() -> Vec<ManySpec> {
+    let mut out = vec![];
+    for k in [6usize, 9, 12, 16, 17, 20] {
+        for tpat in 0..3 {
+            let base: Vec<(u32, u32, usize)> = (0..k)
+                .map(|i| {
+                    let lo = 3 * i as u32;
+                    let hi = if i + 1 == k { MAX_CHAR } else { lo + 2 };
+                    let t = match tpat {
+                        0 => i % 3,
+                        1 => (i / 2) % 3,
+                        _ => (i * 2 + 1) % 3,
+                    };
+                    (lo, hi, t)
+                })
+                .collect();
+            let mut variants: Vec<Vec<(u32, u32, usize)>> = vec![base.clone()];
+            for drop in [0usize, k / 2, k - 1] {
+                let mut v = base.clone();
+                v.remove(drop);
+                variants.push(v);
+            }
+            for at in [1usize, k / 2, k - 2] {
+                // a duplicate of one label, a label nested in it, and a bridge over it and its same-target neighbour (if any)
+                let (lo, hi, t) = base[at];
+                let mut v = base.clone();
+                v.push((lo, hi, t));
+                variants.push(v);
+                let mut v = base.clone();
+                v.insert(0, (lo + 1, lo + 1, t));
+                variants.push(v);
+                if base[at + 1].2 == t {
+                    let mut v = base.clone();
+                    v.push((lo + 1, base[at + 1].1.min(lo + 4), t));
+                    variants.push(v);
+                }
+                // a conflicting label: overlaps label `at` in one character with another target
+                let mut v = base.clone();
+                v.push((hi, hi, (t + 1) % 3));
+                variants.push(v);
+                let mut v = base.clone();
+                v.insert(at, (lo.saturating_sub(1), lo, (t + 2) % 3));
+                variants.push(v);
+            }
+            for labels in variants {
+                let n = labels.len();
+                let orders: Vec<Vec<usize>> = vec![(0..n).collect(), (0..n).rev().collect(), (0..n).step_by(2).chain((1..n).step_by(2)).collect(), (0..n).map(|i| (i * 7 + 3) % n).collect::<std::collections::BTreeSet<_>>().into_iter().collect()];
+                for (oi, ord) in orders.iter().enumerate() {
+                    if oi == 3 && ord.len() != n {
+                        continue;
+                    }
+                    let l: Vec<(u32, u32, usize)> = if oi == 3 { (0..n).map(|i| labels[(i * 7 + 3) % n]).collect() } else { ord.iter().map(|&i| labels[i]).collect() };
+                    for (dflt, first) in [(None, false), (Some(1usize), false), (Some(2), true)] {
+                        out.push(ManySpec { labels: l.clone(), dflt, dflt_first: first });
+                    }
+                }
+            }
+        }
+    }
+    out
+}
+
 /// per-state specifications: ordered sequences of <= 3 transitions over `nt` targets, a default option, and where the default is declared
 #[derive(Clone)]
 struct StateSpec {
@@ -1028,7 +1224,7 @@ impl Engine for BldEngine {
         let n = state_specs(ns, 3).len();
         Meta {
             level: "model_checking",
-            rule: "builder call sequences: per state every ordered sequence of <= 3 add_transition(label, target) calls (and every ordered sequence of exactly 4 for state 0) (labels = the 6 unions of consecutive blocks of [0,9] [10,19] [20,MAX]), a default in {none} + targets declared before or after the transitions (or declared twice), final marks, and an intermediate build() / build_unchecked() inserted at every position of a share of the sequences (building must not change what was specified); the model records for every state and block the set of targets assigned: conflict or uncovered => build() must fail; complete, conflict-free, defaults only where needed => must succeed; otherwise either; whenever Ok the automaton must equal the specification up to a renaming fixing the initial state (every successor on 9 probe characters, final flags, counts); non-trivial = specifications accepted by build()".into(),
+            rule: "builder call sequences: per state every ordered sequence of <= 3 add_transition(label, target) calls (and every ordered sequence of exactly 4 for state 0) (labels = the 6 unions of consecutive blocks of [0,9] [10,19] [20,MAX]), a default in {none} + targets declared before or after the transitions (or declared twice), final marks, states with 6 to 20 labels (adjacent intervals in four presentation orders; as given, with a label removed, with duplicated / nested / bridging same-target labels, with a conflicting label; with and without default) checked on every elementary segment; and an intermediate build() / build_unchecked() inserted at every position of a share of the sequences (building must not change what was specified); the model records for every state and block the set of targets assigned: conflict or uncovered => build() must fail; complete, conflict-free, defaults only where needed => must succeed; otherwise either; whenever Ok the automaton must equal the specification up to a renaming fixing the initial state (every successor on 9 probe characters, final flags, counts); non-trivial = specifications accepted by build()".into(),
             assumptions: vec!["a needless default (declared although the transitions already cover the alphabet) is not classified by the statement: both outcomes are accepted".into()],
             exhaustive: true,
             space: format!("{} states; state 0 ranges over all {} per-state specifications, the other state(s) over every {}th{} one; final sets: none, {{last}}, all", ns, n, s1, if ns == 3 { format!(" / {}th", s2) } else { String::new() }),
@@ -1167,6 +1363,17 @@ impl Engine for BldEngine {
                 }
             }
         }
+        // states with many labels
+        for (i, sp) in many_specs().iter().enumerate() {
+            if i % BLD_NB != batch {
+                continue;
+            }
+            rep.inc("evaluations");
+            rep.inc("many_label_states");
+            if let Some(m) = many_case(sp, rep) {
+                rep.violation("C13", "bld", many_json(sp), m);
+            }
+        }
         // a different initial key, and keys that are not 0..n (sparse, huge, in descending order of first mention)
         if batch == 0 {
             for sp0 in specs.iter().step_by(7) {
@@ -1204,6 +1411,14 @@ impl Engine for BldEngine {
         1
     }
     fn replay(&self, _ctx: &Ctx, c: &Value, rep: &mut Report) {
+        if c.get("many").is_some() {
+            rep.inc("evaluations");
+            let sp = many_from_json(c);
+            if let Some(m) = many_case(&sp, rep) {
+                rep.violation("C13", "bld", c.clone(), m);
+            }
+            return;
+        }
         let (init, calls) = calls_from_json(c);
         rep.inc("evaluations");
         if let Some(m) = bld_case(init, &calls, rep) {
